@@ -26,7 +26,8 @@ RULE = ("History: G = generated graph (k = 2..4, t = 1..3), views (accessor, lat
         "in calculate_intersection_score(copy of pre-call map, k, flags) equals the maximum; the reported (former, latter) is that "
         "entry; accessor_to_latter_map(accessor) == latter map (keys/values as ints); score matrix has the accessor's shape and is "
         "positive only on existing arcs. Non-trivial (per call): the pre-call graph has at least two different positive scores, so 'the maximum' is a real choice; "
-        "distinct = hash of (pre-call graph, flags). Histories of >= 5 calls in which a vertex lost its last arc have a floor.")
+        "distinct = hash of (pre-call graph, flags). Histories of >= 5 calls in which a vertex lost its last arc have a floor."
+        ' Also: hand-built latter maps with follower lists in arbitrary order, Fortran-ordered and strided accessors; all flags passed positionally in the documented order.')
 
 
 def setup(ctx):
